@@ -335,4 +335,90 @@ example : mul 2 ⟨3, 3, 1, [7, 8, 9]⟩ ⟨2, -2, 0, [5, 6]⟩ = ⟨2, -3, 0, [
 example : toQ (mul 2 ⟨2, 1, 1, [3]⟩ ⟨2, 1, 1, [5]⟩) = 15 := by
   rw [show mul 2 ⟨2, 1, 1, [3]⟩ ⟨2, 1, 1, [5]⟩ = ⟨2, 1, 1, [15]⟩ by decide]; simp [toQ, val]
 
+
+/-! ### mpf_set_ui, mpf_set_si, mpf_set_z -/
+
+/-- mpf_set_ui is exact and well formed (v < 2^64). -/
+theorem set_ui_exact (prec : Nat) (v : Nat) (hv : v < B) :
+    toQ (set_ui prec v) = v ∧ WF (set_ui prec v) := by
+  unfold set_ui
+  by_cases h : v = 0
+  · rw [if_pos h, h]; exact ⟨by simp [toQ], WF_zero prec⟩
+  · rw [if_neg h]
+    refine ⟨by simp [toQ, val], ?_⟩
+    exact ⟨Limbs_cons.mpr ⟨hv, Limbs_nil⟩, rfl, by simp, by simpa using h, by simp⟩
+
+/-- mpf_set_si is exact and well formed (|v| ≤ 2^63). -/
+theorem set_si_exact (prec : Nat) (v : Int) (hv : v.natAbs < B) :
+    toQ (set_si prec v) = v ∧ WF (set_si prec v) := by
+  unfold set_si
+  by_cases h : v = 0
+  · rw [if_pos h, h]; exact ⟨by simp [toQ], by simpa [zero] using WF_zero prec⟩
+  · rw [if_neg h]
+    refine ⟨?_, ?_⟩
+    · by_cases hs : v ≥ 0
+      · have : ¬ ((1 : ℤ) < 0) := by omega
+        simp only [toQ, hs, if_true, this, if_false, val, List.length_cons, List.length_nil]
+        have : ((v.natAbs : ℕ) : ℚ) = (v : ℚ) := by
+          rw [Nat.cast_natAbs, abs_of_nonneg hs]
+        simp [this]
+      · have h1 : ((-1 : ℤ) < 0) := by omega
+        simp only [toQ, hs, if_false, h1, if_true, val, List.length_cons, List.length_nil]
+        have : ((v.natAbs : ℕ) : ℚ) = -(v : ℚ) := by
+          rw [Nat.cast_natAbs, abs_of_neg (by omega)]; push_cast; rfl
+        simp [this]
+    · refine ⟨Limbs_cons.mpr ⟨hv, Limbs_nil⟩, ?_, ?_, ?_, ?_⟩
+      · by_cases hs : v ≥ 0 <;> simp [hs]
+      · by_cases hs : v ≥ 0 <;> simp [hs]
+      · simp; omega
+      · by_cases hs : v ≥ 0 <;> simp [hs]
+
+/-- mpf_set_z: format rules, error bound, exactness. -/
+theorem set_z_spec (prec : Nat) (z : Int) (hp : 1 ≤ prec) :
+    WF (set_z prec z) ∧
+    (z ≠ 0 → |toQ (set_z prec z) - z| < eps prec * |(z : ℚ)|) ∧
+    (Fits (z : ℚ) (PREC_TO_BITS prec) → toQ (set_z prec z) = z) := by
+  obtain ⟨n1, n2, n3, n4⟩ := natLimbs_spec z.natAbs
+  unfold set_z
+  by_cases hz : z = 0
+  · subst hz
+    simp only [Int.natAbs_zero, natLimbs_zero, top, List.length_nil, List.drop_nil]
+    refine ⟨by simpa [zero] using WF_zero prec, fun h => absurd rfl h, fun _ => by simp [toQ]⟩
+  · have hne : natLimbs z.natAbs ≠ [] := by
+      intro h; rw [h] at n1; simp at n1; omega
+    obtain ⟨t1, t2, t3, t4, t5, t6, t7⟩ := top_trunc prec hp _ n2 hne n3
+    rw [n1] at t5 t6 t7
+    generalize natLimbs z.natAbs = zl at *
+    have hσ : (if z ≥ 0 then (1 : ℚ) else -1) = 1 ∨ (if z ≥ 0 then (1 : ℚ) else -1) = -1 := by
+      by_cases h : z ≥ 0 <;> simp [h]
+    have hzq : (z : ℚ) = (if z ≥ 0 then (1 : ℚ) else -1) * (z.natAbs : ℚ) * (B : ℚ) ^ (0 : ℤ) := by
+      rw [Nat.cast_natAbs]
+      by_cases h : z ≥ 0
+      · simp [h, abs_of_nonneg h]
+      · simp [h, abs_of_neg (by omega : z < 0)]
+    have hval : toQ ⟨prec, if z ≥ 0 then ((top (prec + 1) zl).length : Int) else -((top (prec + 1) zl).length : Int),
+        (zl.length : Int), top (prec + 1) zl⟩ =
+        (if z ≥ 0 then (1 : ℚ) else -1) * ((val (top (prec + 1) zl) * B ^ (zl.length - (prec + 1)) : ℕ) : ℚ) * (B : ℚ) ^ (0 : ℤ) := by
+      rw [toQ_mk, t4]
+      have : (zl.length : ℤ) - ((min (prec + 1) zl.length : ℕ) : ℤ) = ((zl.length - (prec + 1) : ℕ) : ℤ) := by omega
+      rw [this, zpow_natCast]; push_cast; rw [zpow_zero]; ring
+    refine ⟨WF_mk t1 t3 (by rw [t4]; omega) (fun h => absurd h t2), ?_, ?_⟩
+    · intro _
+      rw [hval, hzq]
+      have := err_of_nat _ hσ _ _ ((B : ℚ) ^ (0 : ℤ)) (by simp) prec t5 t6
+      simpa using this
+    · intro hf
+      rw [hzq] at hf
+      have f1 := fitsN_of_fits hσ _ _ _ hf
+      have hpb : PREC_TO_BITS prec = 64 * (prec - 1) := by unfold PREC_TO_BITS; omega
+      rw [hpb] at f1
+      have hge : B ^ (zl.length - 1) ≤ z.natAbs := by rw [← n1]; exact val_ge_of_top zl hne n3
+      have := t7 (fitsN_dvd f1 hge hp)
+      rw [hval, this, ← hzq]
+
+example : toQ (set_z 2 (-7)) = ((-7 : ℤ) : ℚ) :=
+  (set_z_spec 2 (-7) (by norm_num)).2.2 ⟨-7, 0, by norm_num, by norm_num [PREC_TO_BITS]⟩
+example : set_si 2 (-5) = ⟨2, -1, 1, [5]⟩ := by decide
+example : set_ui 3 7 = ⟨3, 1, 1, [7]⟩ := by decide
+
 end Mpir.Mpf
